@@ -16,6 +16,18 @@ CHECKS = {
  "C17": ("exploration", "PBT over initialiser scripts x threads x seed kinds with invariants (mutual exclusion, single success, seed continuity, drop ledger) and the blocked-state detector for get()",
          "Generated scripts of failing / panicking / succeeding initialisers on 1..8 threads with spin rendezvous; invariants are checked on the joined history and a drop ledger; a blocking get() is caught as a deadlock of the case.",
          "thread interleavings are sampled; liveness of get() is a bounded-safety reading (no all-blocked state in the explored executions)", "4/C17"),
+ "C05": ("exploration", "stateful PBT over generated dependency DAGs (recipes stored in the source) and edit/notification histories; oracle = pure model interpreter (local consistency with the current source and cache) + reload-order invariant; sentinel quiescence barrier",
+         "Generated worlds of up to 9 compound nodes over leaves, directories and raw files with rewiring, breaking, repairing, creating and deleting edits, batched / shuffled / duplicated / noisy notifications, in hot_reload() and enhance_hot_reloading modes. After a barrier every cached asset connected to a notified entry must equal a model evaluation of its recipe; failing reloads keep the old value; no dependent is reloaded before a dependency within a pass.",
+         "trusts the model interpreter of the recipe language and the shadow recorder (harness code); cyclic look-ups and not-tracked-by-design situations are excluded by construction and counted", "4/C05"),
+ "C06": ("exploration", "stateful PBT on the same worlds with un-notified edits and noise; invariants over the observed loader/source log vs the shadow dependency graph; reload-id / watcher accounting after every pass",
+         "For every step: the reloader re-loads only assets connected (per the observed dependency graph, including failed attempts) to a notified entry, at most once per pass, never reads the source otherwise; reload ids change exactly once per successful rewrite; watchers and reloaded_global answer true exactly once per batch of rewrites; unaffected values are bit-identical.",
+         "the shadow graph is derived from observed reads and look-ups with the attribution rules of C14; passes are delimited by hot_reload calls (exact counts only in that mode)", "4/C06"),
+ "C10": ("exploration", "stateful PBT: histories on the same keys over four cache constructors with a frozen-entry model",
+         "Random histories of load / load_owned / get_or_insert / remove / take / clear with notified edits, a load racing an insertion and barriers; every entry the statement declares non-reloadable must keep its creation value, ReloadId::NEVER, silent watchers and the same Handle::get() address and content.",
+         "reloadable entries are observed to reload in the same histories, so the reloader is live when frozen entries are checked", "4/C10"),
+ "C14": ("exploration", "PBT over nested recipes with per-entry enumeration inside each case: exact set equality between handles whose reload id grew and the shadow-graph closure; recording-token hook",
+         "Generated recipes nest loads, owned loads, look-ups, directory loads and raw reads inside no_record (entered through this or another cache), helper threads, a second cache and caught panics; then every touched entry is edited and notified alone and the set of reloaded handles must equal exactly the assets whose own load touched it (plus dependents). The recording token is sampled around every nested operation.",
+         "uses the hook recording_token (read-only); attribution rules are those of the statement, implemented in the harness recorder", "4/C14"),
  "C16": ("exploration", "model-based stateful PBT (Vec<u8>/String reference model) + checking global allocator; fuzz target c16",
          "Random op sequences over a pool of SharedBytes/SharedString handles are compared step by step with a Vec<u8>/String model, while a checking allocator verifies every free (layout, double free, poison, live blocks). Racing final drops behind a spin rendezvous sample the refcount race. Exploration, not proof: byte inputs and schedules are sampled.",
          "trusts the harness model and allocator wrapper; thread interleavings are OS-scheduled (sampled)", "4/C16"),
